@@ -51,7 +51,7 @@ int main(int argc, char** argv)
     bool c12 = !strcmp(prop, "C12");
     vh::Rng g(E.seed * 179424673 + (c12 ? 12 : 13));
     int np = E.np, rank = E.rank;
-    int ncases = seq ? (E.thorough ? 400 : 100) : (E.thorough ? 120 : 36);
+    int ncases = seq ? (E.thorough ? 400 : 100) : (E.thorough ? (c12 ? 240 : 120) : (c12 ? 90 : 36));   // C12: interpolation x variables x truncation
     for (int it = 0; it < ncases; it++)
     {
         int cap = 2 + std::min(28, it / 2);
@@ -61,9 +61,13 @@ int main(int argc, char** argv)
         std::vector<double> w = gen_weights(g, n);
         int split = g.below(5), interp = g.below(3);
         bool random_states = c12 && g.coin(1, 3);
+        // systems of several interleaved unknowns per node, and truncation of small weights (distributed extended interpolation)
+        int nv = (c12 && g.coin(1, 3)) ? g.range(2, 3) : 1;
+        double thr = (c12 && !seq && interp == 2 && g.coin(1, 4)) ? 0.3 : 0.0;
+        std::vector<int> vars(n); for (int i = 0; i < n; i++) vars[i] = i % nv;
         char ctx[128]; snprintf(ctx, 128, "%s/%s/%s/%s/n%d", prop, seq ? "seq" : "par", SPLIT[split], c12 ? INTERP[interp] : "-", n); E.about(ctx);
         if (seq) {
-            CSRMatrix* A = vh::make_csr(t); CSRMatrix* S = A->strength(Classical, theta);
+            CSRMatrix* A = vh::make_csr(t); CSRMatrix* S = A->strength(Classical, theta, nv, nv > 1 ? vars.data() : NULL);
             std::vector<int> states;
             int sk = (split == 2) ? 0 : (split == 4 ? 3 : split);
             seq_split(sk, S, states, w);
@@ -72,8 +76,8 @@ int main(int argc, char** argv)
             } else {
                 if (random_states) {   // random splitting satisfying the neighbour precondition: every F point with strong connections keeps a strong C neighbour
                     for (int i = 0; i < n; i++) if (states[i] == Unselected && g.coin(1, 4)) states[i] = Selected; }
-                CSRMatrix* P = interp == 0 ? direct_interpolation(A, S, states) : interp == 1 ? mod_classical_interpolation(A, S, states) : extended_interpolation(A, S, states);
-                if (E.want()) { vh::Case c("C12", "seq"); c.i(interp).i(n).d(theta); for (auto q : csr_ll(A)) c.i(q); for (auto q : csr_ll(S)) c.i(q); c.vec(states); for (auto q : csr_ll(P)) c.i(q); c.i(P->n_rows).i(P->n_cols); c.write(E.out); }
+                CSRMatrix* P = interp == 0 ? direct_interpolation(A, S, states) : interp == 1 ? mod_classical_interpolation(A, S, states, nv, nv > 1 ? vars.data() : NULL) : extended_interpolation(A, S, states, nv, nv > 1 ? vars.data() : NULL);
+                if (E.want()) { vh::Case c("C12", "seq"); c.i(interp).i(n).d(theta).i(nv).d(thr); for (auto q : csr_ll(A)) c.i(q); for (auto q : csr_ll(S)) c.i(q); c.vec(states); for (auto q : csr_ll(P)) c.i(q); c.i(P->n_rows).i(P->n_cols); c.write(E.out); }
                 delete P;
             }
             delete S; delete A;
@@ -84,8 +88,9 @@ int main(int argc, char** argv)
             int tap = (np > 1 && g.coin(1, 3)) ? 1 : 0;
             ParCOOMatrix* Ac = vh::assemble_coo(t, L, rank); ParCSRMatrix* A = Ac->to_ParCSR();
             if (tap) A->init_tap_communicators(MPI_COMM_WORLD);      // as the solvers do: tap_comm and tap_mat_comm
-            ParCSRMatrix* S = A->strength(Classical, theta, tap);
             int fr = A->partition->first_local_row, lr = A->local_num_rows;
+            std::vector<int> lvars(vars.begin() + fr, vars.begin() + fr + lr);
+            ParCSRMatrix* S = A->strength(Classical, theta, tap, nv, nv > 1 ? lvars.data() : NULL);
             std::vector<double> wl(w.begin() + fr, w.begin() + fr + lr);
             std::vector<int> states, off_states;
             if (split == 0) split_rs(S, states, off_states, tap); else if (split == 1) split_cljp(S, states, off_states, tap, wl.data());
@@ -104,19 +109,19 @@ int main(int argc, char** argv)
                     std::vector<int> promote(n); for (int i = 0; i < n; i++) promote[i] = gs.coin(1, 4);
                     for (int i = 0; i < lr; i++) if (states[i] == Unselected && promote[fr + i]) states[i] = Selected;
                     for (size_t j = 0; j < off_states.size(); j++) if (off_states[j] == Unselected && promote[S->off_proc_column_map[j]]) off_states[j] = Selected; }
-                ParCSRMatrix* P = interp == 0 ? direct_interpolation(A, S, states, off_states, tap) : interp == 1 ? mod_classical_interpolation(A, S, states, off_states, tap)
-                                  : extended_interpolation(A, S, states, off_states, 0.0, tap);
+                ParCSRMatrix* P = interp == 0 ? direct_interpolation(A, S, states, off_states, tap) : interp == 1 ? mod_classical_interpolation(A, S, states, off_states, tap, nv, nv > 1 ? lvars.data() : NULL)
+                                  : extended_interpolation(A, S, states, off_states, thr, tap, nv, nv > 1 ? lvars.data() : NULL);
                 auto pents = flat(G(vh::local_entries(P, false)));
                 std::vector<long long> st2(states.begin(), states.end()); auto allst2 = flat(G(st2));
                 auto pdims = G({ (long long)P->global_num_rows, (long long)P->global_num_cols, (long long)P->local_num_rows, (long long)P->on_proc_num_cols });
                 bool want = E.want();
                 if (rank == 0 && want) {
-                    vh::Case c("C12", "par"); c.i(interp).i(n).i(np).i(tap).d(theta);
+                    vh::Case c("C12", "par"); c.i(interp).i(n).i(np).i(tap).d(theta).i(nv).d(thr);
                     CSRMatrix* Ag = vh::make_csr(t); Ag->sort(); Ag->move_diag(); for (auto q : csr_ll(Ag)) c.i(q);
                     c.vec(sents).vec(allst2).vec(pents); for (auto& d : pdims) for (auto q : d) c.i(q);
                     // the sequential routine on the assembled matrix, same strength pattern and splitting
-                    CSRMatrix* Sg = Ag->strength(Classical, theta); std::vector<int> sg(allst2.begin(), allst2.end());
-                    CSRMatrix* Ps = interp == 0 ? direct_interpolation(Ag, Sg, sg) : interp == 1 ? mod_classical_interpolation(Ag, Sg, sg) : extended_interpolation(Ag, Sg, sg);
+                    CSRMatrix* Sg = Ag->strength(Classical, theta, nv, nv > 1 ? vars.data() : NULL); std::vector<int> sg(allst2.begin(), allst2.end());
+                    CSRMatrix* Ps = interp == 0 ? direct_interpolation(Ag, Sg, sg) : interp == 1 ? mod_classical_interpolation(Ag, Sg, sg, nv, nv > 1 ? vars.data() : NULL) : extended_interpolation(Ag, Sg, sg, nv, nv > 1 ? vars.data() : NULL);
                     for (auto q : csr_ll(Ps)) c.i(q);
                     c.write(E.out); delete Ps; delete Sg; delete Ag;
                 }
